@@ -77,13 +77,13 @@ func main() {
 		return false
 	}
 	var n2 []shapes.N2
-	for _, n := range shapes.Nodes2(true) {
+	for _, n := range shapes.Nodes2(vlib.Pick(c, 1, 2)) {
 		if !skip(n.Name) {
 			n2 = append(n2, n)
 		}
 	}
 	var n3 []shapes.N3
-	for _, n := range shapes.Nodes3(true) {
+	for _, n := range shapes.Nodes3(vlib.Pick(c, 1, 2)) {
 		if !skip(n.Name) {
 			n3 = append(n3, n)
 		}
